@@ -36,7 +36,7 @@ const (
 func (c05) ID() string    { return "C05" }
 func (c05) Level() string { return "exploration" }
 func (c05) Rule() string {
-	return "the hostile corpus of C04 (with its emphasis on truncated, emptied and inconsistent repeated sections and on headers declaring more than they deliver) is decoded by ReadPacket and UnmarshalBinary under a per-call meter: bytes allocated <= 64*L+32KiB, thread CPU time <= 2s+2us*L, live heap growth <= 64*L+64MiB (heap poller, 500us period), every list of a returned packet <= frame length; packets returned earlier must not grow; no goroutine may be left behind by a case; a call that never returns is caught by the in-worker watchdog on CPU-time evidence. L = max(declared remaining length, bytes supplied). distinct = hash(api, input); non-trivial = the decoder was entered with a complete body"
+	return "the hostile corpus of C04 (with its emphasis on truncated, emptied and inconsistent repeated sections and on headers declaring more than they deliver) is decoded by ReadPacket and UnmarshalBinary under a per-call meter: bytes allocated <= 64*L+32KiB, thread CPU time <= 2s+2us*L, no garbage collection forced by the call (runtime.MemStats.NumForcedGC, the harness's own collections subtracted), live heap growth <= 64*L+64MiB (heap poller, 500us period), every list of a returned packet <= frame length; packets returned earlier must not grow; no goroutine may be left behind by a case; a call that never returns is caught by the in-worker watchdog on CPU-time evidence. L = max(declared remaining length, bytes supplied). distinct = hash(api, input); non-trivial = the decoder was entered with a complete body"
 }
 func (c05) Assumptions() []string {
 	return []string{
@@ -102,6 +102,10 @@ func c05Judge(c *run.Ctx, m *mon.Meter, api, T, kind string, L int64, in []byte)
 	if lim := int64(c05CPUBase + c05CPUPerByte*float64(L)); m.CPUNano > lim {
 		c.Violation("C05/cpu/"+api+"/"+T, fmt.Sprintf("%s used %d ns of CPU for a frame of declared length %d (budget %d) (%s)", api, m.CPUNano, L, lim, kind),
 			map[string]interface{}{"input": hexClip(in, 4096), "cpu_ns": m.CPUNano, "L": L})
+	}
+	if m.ForcedGC > 0 {
+		c.Violation("C05/forced-gc/"+api+"/"+T, fmt.Sprintf("%s forced %d garbage collection(s) for a frame of declared length %d: work proportional to the application's whole heap, not to the frame (%s)", api, m.ForcedGC, L, kind),
+			map[string]interface{}{"input": hexClip(in, 256), "L": L})
 	}
 	c.Max("alloc_bytes_per_frame_byte/"+api, float64(m.Alloc)/float64(L+1))
 	c.Max("alloc_bytes/"+api, float64(m.Alloc))
